@@ -98,30 +98,29 @@ def check_kernels(pid, work, log):
     spec = PROPS[pid]
     if not spec.get("kernels"):
         return {"obligations": 0, "discharged": 0, "failed": []}
-    from . import translate, translate2
+    from . import translate, translate2, translate3
     res = {"obligations": 0, "discharged": 0, "failed": []}
     gen = C.ensure_dir(os.path.join(work, "Gen"))
-    methods = bool(spec.get("methods"))
-    try:
-        text = translate.generate(C.REPO)
-        mtext = translate2.generate(C.REPO) if methods else None
-    except Exception as e:  # fail closed
-        res["obligations"] = 1
-        res["failed"].append(f"translator: {type(e).__name__}: {e}")
-        return res
-    open(os.path.join(gen, "Kernels.v"), "w").write(text)
-    files = ["Kernels.v", "Tie.v"]
-    ties = ["Tie.v"]
-    if methods:
-        open(os.path.join(gen, "Methods.v"), "w").write(mtext)
-        files = ["Kernels.v", "Methods.v", "Tie.v", "TieMethods.v"]
-        ties = ["Tie.v", "TieMethods.v"]
-    names = []
-    for t in ties:
-        shutil.copy(os.path.join(C.COQ, "Gen", t), os.path.join(gen, t))
-        names += re.findall(r"Print Assumptions\s+([A-Za-z0-9_'.]+)\s*\.", strip_comments(open(os.path.join(gen, t)).read()))
-    res["obligations"] = len(names)
+    stages = [("Kernels.v", translate.generate, "Tie.v")]
+    if spec.get("methods"):
+        stages.append(("Methods.v", translate2.generate, "TieMethods.v"))
+    if spec.get("rangemap"):
+        stages.append(("RangeMap.v", translate3.generate, "TieRangeMap.v"))
+    files, names = [], []
+    for (gfile, genfn, tie) in stages:
+        try:
+            text = genfn(C.REPO)
+        except Exception as e:  # fail closed
+            res["obligations"] += 1
+            res["failed"].append(f"translator ({gfile}): {type(e).__name__}: {e}")
+            continue
+        open(os.path.join(gen, gfile), "w").write(text)
+        shutil.copy(os.path.join(C.COQ, "Gen", tie), os.path.join(gen, tie))
+        names += re.findall(r"Print Assumptions\s+([A-Za-z0-9_'.]+)\s*\.", strip_comments(open(os.path.join(gen, tie)).read()))
+        files.append((gfile, tie))
+    res["obligations"] += len(names)
     res["theorems"] = names
+    files = [g for g, _ in files] + [t for _, t in files]
     closed = 0
     for f in files:
         p = subprocess.run(["coqc", "-Q", C.COQ, "Soc", "-Q", gen, "SocGen", "-w", "-notation-overridden",
@@ -131,11 +130,11 @@ def check_kernels(pid, work, log):
         if p.returncode != 0:
             log.append(out[-3000:])
             res["failed"].append(f"Gen/{f}: {out.strip().splitlines()[-1] if out.strip() else 'failed'}")
-            return res
+            continue
         closed += out.count("Closed under the global context")
     res["discharged"] = closed
     if res["discharged"] != res["obligations"]:
-        res["failed"].append(f"Gen/Tie.v: {res['discharged']} closed of {res['obligations']}")
+        res["failed"].append(f"Gen tie lemmas: {res['discharged']} closed of {res['obligations']}")
     return res
 
 
